@@ -26,6 +26,10 @@ type class struct {
 	name string
 	a, b []rep
 	leaf string
+	// conditional: the documentation does NOT make these values eq (NaNs of different origins and bit
+	// patterns).  The property is conditional on the real eq: the class is used iff the real eq
+	// reports its members equal (then they must be one key); otherwise there is nothing to check.
+	conditional bool
 }
 
 func code(c string) rep { return rep{desc: c, code: c} }
@@ -62,7 +66,7 @@ func classPool() []*class {
 			b: []rep{code("(/ 3.0 2)"), code("(inexact-num 3/2)"), code("(+ 1 0.5)")}},
 		{name: "float-inf",
 			a: []rep{code("(num +Inf)"), goval("+Inf", math.Inf(1))},
-			b: []rep{code("(/ 1.0 0.0)"), code("(* 2 (num +Inf))"), code("(inexact-num 10000000000000000000)")}},
+			b: []rep{code("(/ 1.0 0.0)"), code("(* 2 (num +Inf))"), code("(inexact-num 10000000000000000000)"), code("(* (num 1e308) 10)")}},
 		{name: "list",
 			a: []rep{code("[a b]"), goval("MakeList", vals.MakeList("a", "b"))},
 			b: []rep{code("(conj [a] b)"), code("[x a b y][1..3]"), code("[a b c][..-1]"), goval("SubVector", vals.MakeList("x", "a", "b").SubVector(1, 3))}},
@@ -100,6 +104,28 @@ func classPool() []*class {
 		{name: "nil",
 			a: []rep{code("$nil"), goval("nil", nil)},
 			b: []rep{code("(put [&a=$nil][a])")}},
+		{name: "float-subnormal",
+			a: []rep{code("(num 5e-324)"), goval("SmallestNonzeroFloat64", math.SmallestNonzeroFloat64)},
+			b: []rep{code("(/ (num 1e-323) 2)"), code("(* (num 1e-200) (num 5e-124))"), goval("Float64frombits(1)", math.Float64frombits(1))}},
+		{name: "float-neg-inf",
+			a: []rep{code("(num -Inf)"), goval("-Inf", math.Inf(-1))},
+			b: []rep{code("(/ -1.0 0.0)"), code("(* (num -1e308) 10)"), code("(- (num +Inf))"), code("(inexact-num -10000000000000000000)")}},
+		// NaNs of different origins: parsed / math.NaN() = 0x7ff8000000000001; Inf-Inf, 0.0*Inf, 0.0/0.0 = the
+		// FPU's default NaN (0xfff8000000000000 on amd64); negative sign; payload bits.
+		{name: "nan", conditional: true,
+			a: []rep{code("(num NaN)"), goval("math.NaN()", math.NaN()), code("(inexact-num NaN)")},
+			b: []rep{code("(- (num +Inf) (num +Inf))"), code("(* (num 0.0) (num +Inf))"), code("(/ (num 0.0) (num 0.0))"),
+				goval("Copysign(NaN,-1)", math.Copysign(math.NaN(), -1)), goval("NaN payload 0x7ff8000000000123", math.Float64frombits(0x7ff8000000000123)),
+				goval("NaN 0xfff8000000000000", math.Float64frombits(0xfff8000000000000)), code("(+ (num NaN) 1)")}},
+		{name: "list-of-nan", conditional: true,
+			a: []rep{code("[(num NaN)]"), goval("[math.NaN()]", vals.MakeList(math.NaN()))},
+			b: []rep{code("[(- (num +Inf) (num +Inf))]"), goval("[-NaN]", vals.MakeList(math.Copysign(math.NaN(), -1))), code("(conj [] (* (num 0.0) (num +Inf)))")}},
+		{name: "map-of-nan", conditional: true,
+			a: []rep{code("[&k=(num NaN)]")},
+			b: []rep{code("[&k=(- (num +Inf) (num +Inf))]"), goval("[&k=-NaN]", vals.MakeMap("k", math.Copysign(math.NaN(), -1)))}},
+		{name: "map-nan-key", conditional: true,
+			a: []rep{code("[&(num NaN)=v]")},
+			b: []rep{code("[&(- (num +Inf) (num +Inf))=v]"), goval("[&-NaN=v]", vals.MakeMap(math.Copysign(math.NaN(), -1), "v"))}},
 		{name: "ui-key",
 			a: []rep{goval("ui.K('A', Ctrl)", ui.K('A', ui.Ctrl))},
 			b: []rep{goval(`ParseKey("Ctrl-A")`, ctrlA)}},
